@@ -318,6 +318,48 @@ def stdout_sink():
         sys.stdout = old
 
 
+def process_state_probe():
+    """A cheap digest of everything in the modeling package (and the particle table) that outlives a call: every class
+    attribute and module global that is a set / dict / list / bool / None / DataFrame, by identity and size."""
+    import importlib
+    import inspect
+
+    slots = []
+    for modname in ("decaylanguage.modeling.amplitudechain", "decaylanguage.modeling.goofit", "decaylanguage.modeling.ampgen2goofit",
+                    "decaylanguage.modeling.decay", "decaylanguage.utils.particleutils"):
+        mod = importlib.import_module(modname)
+        owners = [mod] + [c for _, c in inspect.getmembers(mod, inspect.isclass) if getattr(c, "__module__", "").startswith("decaylanguage")]
+        for o in owners:
+            for name in list(vars(o)):
+                if name.startswith("__"):
+                    continue
+                slots.append((o, name))
+    from particle import Particle
+
+    def size(v):
+        try:
+            return len(v)
+        except Exception:
+            return -1
+
+    def probe():
+        out = []
+        for o, name in slots:
+            v = o.__dict__.get(name, None)
+            if isinstance(v, (set, dict, list)):
+                out.append((id(v), len(v)))
+            elif isinstance(v, (bool, int, str)) or v is None:
+                out.append(v)
+            elif type(v).__name__ == "DataFrame":
+                out.append(id(v))
+        # class attributes created on subclasses during the call (cls.x = ...) show up as new keys
+        out.append(tuple(len(vars(o)) for o, _ in slots[:: max(1, len(slots) // 8)]))
+        out.append((size(getattr(Particle, "_table", None)), size(getattr(Particle, "_table_names", None))))
+        return tuple(out)
+
+    return probe
+
+
 # ------------------------------------------------------------------ operations and observations
 READERS = {"AmplitudeChain": ("decaylanguage.modeling.amplitudechain", "AmplitudeChain"),
            "GooFitChain": ("decaylanguage.modeling.goofit", "GooFitChain"),
@@ -349,12 +391,17 @@ def do_op(op: dict, files: dict) -> dict:
         # what the following calls of the history have to cope with
         from simkit.inject import Injector, SimFault
 
-        inj = Injector(int(op["k"]), op.get("target"))
+        if op.get("after_mutation"):
+            from simkit.inject import MutationInjector
+
+            inj = MutationInjector(int(op["after_mutation"]), process_state_probe())
+        else:
+            inj = Injector(int(op["k"]), op.get("target"))
         try:
             inj.run(do_op, op["inner"], files)
         except SimFault:
             return {"kind": "interrupted", "where": inj.where}
-        return {"kind": "interrupt_not_reached", "line_events": inj.count}
+        return {"kind": "interrupt_not_reached", "line_events": inj.count, "mutations_seen": getattr(inj, "mutations", None)}
     path = SIM_PREFIX + op["file"]
     try:
         if op["op"] == "read":
@@ -716,7 +763,7 @@ def op_key(op: dict) -> str:
     if op["op"] == "arm_table_fault":
         return "arm_table_fault"
     if op["op"] == "interrupt":
-        return f"interrupt[{op.get('target', '')}{op['k']}]:" + op_key(op["inner"])
+        return f"interrupt[{op.get('target', '')}{op['k']}{'m' + str(op['after_mutation']) if op.get('after_mutation') else ''}]:" + op_key(op["inner"])
     return op_kind(op) + "@" + op["file"] + ("<-" + op["content"] if op.get("content") else "")
 
 
@@ -764,10 +811,14 @@ def gen_history(rng: random.Random, pool: list, cfg: dict | None = None) -> dict
             # uniform over that range, half log-uniform so that the early phases (option handling, transformer) are hit too
             k = rng.randint(1, 16000) if rng.random() < 0.5 else int(10 ** rng.uniform(0.0, 4.3))
             ops[i] = {"op": "interrupt", "inner": inner, "k": k}
-            if rng.random() < 0.6:
+            r_ = rng.random()
+            if r_ < 0.3:
                 # placement by phase: the k-th line event inside one named function of the reader / generator
                 ops[i]["target"] = rng.choice(KILL_TARGETS)
                 ops[i]["k"] = int(10 ** rng.uniform(0.0, 2.3))
+            elif r_ < 0.7:
+                # placement by in-flight state: right after the j-th change of process-level state made by the call
+                ops[i]["after_mutation"] = rng.randint(1, 48)  # a read makes about 40 such changes (measured)
     # ... and sometimes the one-time load of the special-particle table meets a transient I/O error
     if rng.random() < cfg.get("p_table_fault", 0.15):
         ops.insert(rng.randrange(0, len(ops) - 1), {"op": "arm_table_fault"})
